@@ -116,3 +116,17 @@ fn test_root() {
     assert_eq!(dsu.root(3), common);
     assert_eq!(dsu.root(4), 4);
 }
+
+// read-only verification accessors (compiled only with --cfg clarabel_verif)
+#[cfg(clarabel_verif)]
+impl DisjointSetUnion {
+    pub(crate) fn verif_root(&mut self, x: usize) -> usize {
+        self.root(x)
+    }
+    pub(crate) fn verif_parents(&self) -> Vec<usize> {
+        self.parents.clone()
+    }
+    pub(crate) fn verif_ranks(&self) -> Vec<usize> {
+        self.ranks.clone()
+    }
+}
